@@ -43,6 +43,7 @@ class Glue:
         ex.hooks[FP + '.vAssertGlueValue'] = self.h_assert_value
         ex.hooks[FP + '.vAssertScanValue'] = self.h_assert_scan
         ex.hooks[FP + '.vAssertShift'] = self.h_assert_shift
+        ex.hooks[FP + '.vAssertSetValue'] = self.h_assert_set
         ex.hooks[FP + '.vGlueOverflows'] = self.h_overflows
         ex.glue = self
 
@@ -344,6 +345,77 @@ class Glue:
             badst.inexact = True
         ex.finish(badst)
         rec[1] += 1
+        return None
+
+    def h_assert_set(self, ex, st, fr, ins, args):
+        """tier 5c: the decimal left by decimal.set denotes the literal (exactly, or within the last
+        digit's bracket when trunc), keeps the sign and has no leading zero digit"""
+        from .terms import sgn
+        lit, dptr, idv = args
+        aid = bytes(idv[1]).decode()
+        rec = self.ses.asserts.setdefault(aid, [0, 0])
+        lia = self.lia
+        cells = tuple(ex.slice_cells(st, lit))
+        vnum, vden, vneg, vside = self.literal_value(cells, st)
+        v = ex.load(st, dptr)
+        d, nd, dp, neg, trunc = v[1]
+        if nd.__class__ is Term or dp.__class__ is Term:
+            raise NotImplementedError('symbolic digit count / decimal point')
+        nd, dp = sgn(nd, 64), sgn(dp, 64)
+        side = list(vside)
+        D = z3.IntVal(0)
+        bad = []
+        for i in range(nd):
+            c = d[1][i]
+            if c.__class__ is Term:
+                e_, lo, hi, sd = lia.conv(c)
+                side += list(sd)
+                bad.append(z3.Or(e_ < 48, e_ > 57))
+                if i == 0:
+                    bad.append(e_ == 48)
+            else:
+                e_ = z3.IntVal(c)
+                if c < 48 or c > 57 or (i == 0 and c == 48):
+                    bad.append(z3.BoolVal(True))
+            D = D * 10 + (e_ - 48)
+        e = dp - nd
+        sl, sr = 10 ** max(e, 0) * vden, 10 ** max(-e, 0)
+        exact = D * sl == vnum * sr
+        inside = z3.And(D * sl < vnum * sr, vnum * sr < (D + 1) * sl)
+        if trunc.__class__ is Term:
+            tz, _, _, ts = lia.conv(trunc)
+            side += list(ts)
+            bad.append(z3.If(tz, z3.Not(inside), z3.Not(exact)))
+        else:
+            bad.append(z3.Not(inside) if trunc else z3.Not(exact))
+        if neg.__class__ is Term:
+            nz, _, _, ns = lia.conv(neg)
+            side += list(ns)
+            bad.append(nz != z3.BoolVal(bool(vneg)))
+        elif bool(neg) != bool(vneg):
+            bad.append(z3.BoolVal(True))
+        lia.prefer_fresh = True
+        try:
+            r = lia.check(st.pc, st.extras, (), raw=list(st.raw) + side + [z3.Or(*bad)])
+        finally:
+            lia.prefer_fresh = False
+        self.ses.obligations = getattr(self.ses, 'obligations', 0) + 1
+        if r == 'unsat':
+            rec[0] += 1
+            return None
+        badst = st.fork()
+        badst.status = 'assertfail'
+        badst.result = (aid, ins['pos'])
+        if r == 'sat':
+            assign = lia.model_assign()
+            for v in ex.store.vars:
+                if v.kind == 'byte':
+                    badst.pc = ex.mdd.and_byte(badst.pc, v.order, 1 << (assign.get(v.idx, 0) & 255))
+        else:
+            badst.inexact = True
+        if badst.pc is not None:
+            ex.finish(badst)
+            rec[1] += 1
         return None
 
     # -- the obligation --------------------------------------------------------
